@@ -177,6 +177,11 @@ func init() {
 			for _, rp := range []bool{false, true} {
 				envNo++
 				cfg := proxyCfg{Whitelist: wl, ReverseProxy: rp, Htpasswd: map[string]string{"bob": "pw"}, EncodeState: (wi+envNo)%2 == 0, EmailDomains: []string{"example.com"}}
+				if envNo%3 == 0 {
+					// other domain-valued options are not redirect permissions: cookies for a parent domain, e-mail domains
+					cfg.CookieDomains = []string{".evil.com", "evilgood.com"}
+					cfg.EmailDomains = []string{"example.com", "evil.com", ".good.com.evil.com"}
+				}
 				e, err := newEnv(c, cfg)
 				if err != nil {
 					c.violation("HARNESS", "env: "+err.Error(), fmt.Sprintf("%+v", cfg))
@@ -231,9 +236,14 @@ func e2eFlows(c *suiteCtx, e *testEnv, r *rng, s string) {
 			e2eLoginURLMonitor(c, e, sr.Location, ctx())
 			_, stRd, ok := e2eStateRedirect(e, sr.Location)
 			if !ok {
-				c.violation("HARNESS", "cannot decode state", sr.Location)
-			} else {
-				e2eMonitor(c, e, "state redirect", stRd, ctx())
+				// the state is not in the documented encoding: the state monitor and the model line are blind, the
+				// landing monitors below still judge where the login ends
+				c.tie([]string{"C06", "C03"}, "the state parameter of the login URL is not <nonce>:<redirect> in the configured encoding", map[string]interface{}{"location": sr.Location, "encode_state": e.cfg.EncodeState})
+			}
+			{
+				if ok {
+					e2eMonitor(c, e, "state redirect", stRd, ctx())
+				}
 				cb, _, err := e.idp.authorize(sr.Location, defaultUser())
 				if err == nil {
 					cu, _ := url.Parse(cb)
@@ -249,7 +259,9 @@ func e2eFlows(c *suiteCtx, e *testEnv, r *rng, s string) {
 									map[string]interface{}{"rd": s, "location": cr.Location})
 							}
 						}
-						c.emit(hx(stRd)+" "+hx(cr.Location), append(append([]string{"rd.start"}, q.modelFields(e, target)...), hx(prefix+"/callback"))...)
+						if ok {
+							c.emit(hx(stRd)+" "+hx(cr.Location), append(append([]string{"rd.start"}, q.modelFields(e, target)...), hx(prefix+"/callback"))...)
+						}
 					} else {
 						c.violation("HARNESS", fmt.Sprintf("callback status %d", cr.Status), truncate(cr.Body, 300))
 					}
